@@ -159,6 +159,7 @@ class GStruct(GraphBase):
         E("read a.trimmed_after_convolution_from((3,3)).native", lambda c: _arr(c["a_full"].trimmed_after_convolution_from(kernel_shape=(3, 3)).native))
         M = lambda c, x: aa.Mask2D(mask=_arr(x).copy(), pixel_scales=1.0)  # noqa: E731
         E("read cmask.invert().is_circular", lambda c: bool(c["cmask"].invert().is_circular), lambda c: bool(M(c, c["cmask"].invert()).is_circular))
+        E("read cmask.invert().circular_radius", lambda c: float(c["cmask"].invert().circular_radius), lambda c: float(M(c, c["cmask"].invert()).circular_radius))
         E("read cmask.with_new_array(bigger circle).circular_radius",
           lambda c: float(c["cmask"].with_new_array(_arr(c["cmask_big"]).copy()).circular_radius),
           lambda c: float(M(c, c["cmask_big"]).circular_radius))
